@@ -13,19 +13,19 @@ MANIFEST = dict(
          "functionals and compared with the documented definitions (sum(w x)/sum(w), 1/sqrt(sum w), sqrt(sum w^2 (x-m)^2)/sum w, "
          "sqrt(sum w (x-m)^2/sum w)); its layout rules (sums over axis 0, 1-d weights given a column axis only for N-by-d data, shape "
          "mismatch rejected, replication of element 0 guarded by a length test) read the routine together with the private helpers it "
-         "calls and classify names by the public parameter they derive from and tests by what they say; linear interpolation is compared "
+         "calls and classify names by the public parameter they derive from (through array re-presentations and helpers that return one) and tests by what they say; linear interpolation is compared "
          "with (u-x_k)(v_{k+1}-v_k)/(x_{k+1}-x_k)+v_k where the segment index is decided to be clamp(searchsorted(x,u)-1, 0, n-2) by "
-         "complete enumeration of the integer cases however the clamp is spelled, and no input may be narrowed (cast to an integer type or to "
+         "complete enumeration of the integer cases however the clamp is spelled (a search over a contiguous part x[a:b] of the ascending table is the search over the whole table less a, held to the length of the part), and no input may be narrowed (cast to an integer type or to "
          "another input's dtype) between the public parameter and the search / formula (data flow through array re-presentations); cov->cor and cor->cov are evaluated element by element "
-         "(loop nests over full index ranges and broadcast stores alike) and compared with the element formulas, with their symbolic "
+         "(loop nests over full index ranges and broadcast stores alike; a list filled by one append per pass of a full-range loop is the vector of the appended terms) and compared with the element formulas, with their symbolic "
          "inverse for a positive diagonal, the float64 result buffer and the rejection of a non-positive diagonal; sigma_clip, wmedian, "
          "get_stats and boxcar_average are executed on every path (loops unrolled up to a bound, private helpers entered, other package "
-         "functions as constructors) over a term domain in which the surviving index set is a chain all -> all[keep_0] -> ...: on every "
+         "functions as constructors) over a term domain in which the surviving index set is a chain all -> all[keep_0] -> ... (data re-indexed from the full array by the accumulated index list and data narrowed in step with it denote the same set: subsets of subsets compose; a helper that branches on an undecided test forks the path at the calling statement; calls through a module-level dispatch table that is never changed are calls of the entry): on every "
          "path the reported statistics are those of the reported set, every keep test is the strict |x-mean| < nsig*deviation on the "
          "current set and its own statistics, the loop is left only for all-clipped / nothing-changed (count compared with the size of the "
          "current set) or after exactly niter passes; the weighted median returns the value at sorted position k exactly when the "
          "remaining weight exceeds half the total for all earlier positions and not for k, or, when the position is computed in closed form "
-         "(cumsum + searchsorted / argmax / where / count over the weights in sorted order), is the first position whose running weight is >= "
+         "(cumsum, or the running difference total - cumsum spelled subtract.accumulate, + searchsorted / argmax / where / count over the weights in sorted order), is the first position whose running weight is >= "
          "half the total by the abstract meaning of these primitives; the summary helper wires "
          "min/max/mean/deviation/error from these routines in the right roles with the right keywords.",
     note="Not decided: numerical values, behaviour for zero total weight, more than 3 (clipping) / 4 (median) passes of a loop (the paths are "
@@ -127,21 +127,68 @@ class _Unit:
 _SAME_ARRAY = {"atleast_1d", "asarray", "asanyarray", "array", "ascontiguousarray", "astype", "copy", "float64", "double", "ravel", "view"}
 
 
-def _same_array(e):
-    """the name an expression is a re-presentation of (same elements: converted, copied, given an extra axis), or None"""
+_THROUGH = "<through>"      # key of a roles table under which the resolver of pass-through helper calls is kept (not a name)
+
+
+def _same_array(e, through=None):
+    """the name an expression is a re-presentation of (same elements: converted, copied, given an extra axis), or None.
+    through(call) gives, for a call of a private helper that returns a re-presentation of one of its arguments on every path,
+    that argument expression (None otherwise)"""
     if isinstance(e, ast.Name):
         return e.id
     if isinstance(e, ast.Call) and call_name(e) in _SAME_ARRAY:
         if isinstance(e.func, ast.Attribute) and dotted_name(e.func.value) not in ("np", "numpy"):
-            return _same_array(e.func.value)
-        return _same_array(e.args[0]) if e.args else None
+            return _same_array(e.func.value, through)
+        return _same_array(e.args[0], through) if e.args else None
+    if isinstance(e, ast.Call) and through is not None:
+        a = through(e)
+        if a is not None:
+            return _same_array(a, through)
     s = _column_axis_source(e)
     return s
 
 
 def _role_of_expr(e, roles):
-    s = _same_array(e)
+    s = _same_array(e, roles.get(_THROUGH))
     return roles.get(s) if s is not None else None
+
+
+def _through_helpers(repo, fi):
+    """resolver for _same_array: a call of a private same-module helper every return of which is a re-presentation of the same one
+    parameter (np.atleast_1d(p).astype(...), possibly through locals and further such helpers) stands for the argument bound to it"""
+    memo = {}
+
+    def passed(h, depth):
+        if h.qualname in memo:
+            return memo[h.qualname]
+        memo[h.qualname] = None         # (recursion guard)
+        hp = [p for p in h.params if not p.startswith("*")]
+        seed = {p: p for p in hp}
+        if depth < 3:
+            seed[_THROUGH] = lambda c, _h=h, _d=depth: resolve(_h, c, _d + 1)
+        roles = _name_roles(h.node, seed)
+        rets = [r for r in walk_no_nested(h.node) if isinstance(r, ast.Return)]
+        got = {(_role_of_expr(r.value, roles) if r.value is not None else None) for r in rets}
+        # the parameter must not be rebound on the way (its role is the seed: only locals get derived roles)
+        rebound = {t.id for a in walk_no_nested(h.node) if isinstance(a, (ast.Assign, ast.AugAssign))
+                   for t in ast.walk(a.targets[0] if isinstance(a, ast.Assign) else a.target) if isinstance(t, ast.Name)} & set(hp)
+        p = got.pop() if len(got) == 1 else None
+        memo[h.qualname] = p if (p in hp and p not in rebound and rets) else None
+        return memo[h.qualname]
+
+    def resolve(f, c, depth=0):
+        h = _private_callee(repo, f, c)
+        if h is None or any(isinstance(a, ast.Starred) for a in c.args) or any(k.arg is None for k in c.keywords):
+            return None
+        p = passed(h, depth)
+        if p is None:
+            return None
+        hp = [q for q in h.params if not q.startswith("*")]
+        k = hp.index(p)
+        if k < len(c.args):
+            return c.args[k]
+        return kwarg(c, p)
+    return lambda c: resolve(fi, c)
 
 
 def _name_roles(fn, seed):
@@ -168,6 +215,8 @@ def _private_callee(repo, fi, c):
 
 def _units(repo, fi, seed, depth=3):
     """fi and the private same-module helpers it calls, each with name roles and the facts controlling its call site"""
+    seed = dict(seed)
+    seed[_THROUGH] = _through_helpers(repo, fi)
     out = [_Unit(fi, _name_roles(fi.node, seed), [])]
     seen = {fi.qualname}
     todo = [(out[0], 0)]
@@ -182,7 +231,7 @@ def _units(repo, fi, seed, depth=3):
                     continue
                 seen.add(h.qualname)
                 hp = [p for p in h.params if not p.startswith("*")]
-                hseed = {}
+                hseed = {_THROUGH: seed[_THROUGH]}
                 for p, a in list(zip(hp, c.args)) + [(k.arg, k.value) for k in c.keywords if k.arg]:
                     r = _role_of_expr(a, u.roles)
                     if r is not None:
@@ -436,6 +485,30 @@ def _clamp_classes(r, x, u):
     return out
 
 
+def _search_in_part(r, x):
+    """searchsorted over a contiguous part x[a:b] of the table (a >= 0 written, b written from the end or absent, a - b <= 2 so that
+    the part is not longer than a table of two points allows) is the number of elements of the part that lie below the query point.
+    searchsorted's own precondition is an ascending table, so the elements below the query point are a leading run of the table and
+    the number for the part is the number for the whole table less a, held to [0, len(x[a:b])]:
+        SEARCHSORTED(x[a:b], u) = CLIP(SEARCHSORTED(x, u) - a, 0, n + b - a)
+    (searching the interior nodes x[1:-1] gives clamp(searchsorted(x, u) - 1, 0, n - 2) directly).  The rewritten term is then judged
+    by the complete enumeration of _clamp_classes like any other spelling of the clamp."""
+    SS, SIZE_, CLIP_ = sp.Function("SEARCHSORTED"), sp.Function("SIZE"), sp.Function("CLIP")
+    none = sp.Symbol("None")
+
+    def fold(e):
+        tab, q = e.args
+        if not (_head(tab) == "SLICE" and len(tab.args) == 4 and tab.args[0] == x and tab.args[3] == none):
+            return None
+        a, b = tab.args[1], tab.args[2]
+        a = sp.Integer(0) if a == none else a
+        b = sp.Integer(0) if b == none else (b if (b.is_Integer and b < 0) else None)      # (a written stop of 0 is an empty part)
+        if b is None or not (a.is_Integer and a >= 0 and a - b <= 2):
+            return None
+        return CLIP_(SS(x, q) - a, 0, SIZE_(x) + b - a)
+    return r.replace(lambda e: _head(e) == "SEARCHSORTED" and len(e.args) == 2 and fold(e) is not None, fold)
+
+
 def interplin(chk, repo):
     fi = repo.func(ST + "interplin")
     chk.analysed_unit(fi.qualname)
@@ -450,6 +523,7 @@ def interplin(chk, repo):
     if not isinstance(r, sp.Basic):
         chk.ob("R18.interp", "interplin::formula", None, fi.where(), what + " (the returned value was not reduced to a term: %r)" % (r,))
         return
+    r = _search_in_part(r, x)
     cls = _clamp_classes(r, x, u)
     rk = r.xreplace({e: (K if c == "k" else K + 1) for e, c in cls.items() if c in ("k", "k+1")})
     eq, d = symx.equal(rk, ref)
@@ -563,6 +637,15 @@ class _NoRec(Exception):
     """the construct is written in a way this checker does not read: no verdict"""
 
 
+class _ForkNeeded(_NoRec):
+    """a private helper entered from an expression branches on a test the state does not decide: the statement that called it is
+    run again under each outcome of the test (see _PX.simple / _PX.decide)"""
+
+    def __init__(self, t):
+        _NoRec.__init__(self, "the helper branches on a test the state does not decide: %s" % str(t)[:120])
+        self.t = t
+
+
 class _Arr:
     """an array known element by element: rank and a function from index terms to the element term.  origin: 'param' (the caller's
     array or a view of it), 'alloc' (np.zeros and friends; `call` is the allocating call), 'copy' (a copy of / conversion from another
@@ -574,6 +657,14 @@ class _Arr:
         self.origin = origin
         self.call = call
         self.stores = []
+
+
+class _ListAcc:
+    """a list that starts empty and is filled by one unconditional `append` per pass of one loop over the full extent: after that loop it
+    is the vector whose element k is the value appended in pass k.  Anything else done with it is not read."""
+
+    def __init__(self):
+        self.pending = None         # (loop index, appended term) while the filling loop runs
 
 
 class _MatEval:
@@ -614,10 +705,26 @@ class _MatEval:
             if isinstance(st, ast.Expr) or isinstance(st, (ast.Pass, ast.Import, ast.ImportFrom, ast.Assert, ast.Raise)):
                 if isinstance(st, ast.Expr) and isinstance(st.value, ast.Call) and _private_callee(self.repo, self.fi, st.value) is not None:
                     self.unfollowed.append(norm(st.value.func))     # a helper called for its effect (it may validate and raise)
+                c = st.value if isinstance(st, ast.Expr) else None
+                if isinstance(c, ast.Call) and isinstance(c.func, ast.Attribute) and isinstance(c.func.value, ast.Name) \
+                        and c.func.attr in ("append", "extend", "insert", "pop", "remove", "clear", "sort", "reverse") \
+                        and isinstance(self.env.get(c.func.value.id), (_ListAcc, _Arr, tuple)):
+                    acc = self.env[c.func.value.id]
+                    v = self.ev(c.args[0]) if (c.func.attr == "append" and len(c.args) == 1 and not c.keywords) else None
+                    if not (isinstance(acc, _ListAcc) and acc.pending is None and isinstance(v, sp.Basic) and not conditional
+                            and len(loops) == 1 and self.loopinfo[loops[0]][0]):
+                        raise _NoRec("list operation `%s`" % norm(c)[:60])
+                    acc.pending = (loops[0], v)
                 continue
             if isinstance(st, ast.Assign) and len(st.targets) == 1:
                 t = st.targets[0]
-                if isinstance(t, ast.Name):
+                if isinstance(t, ast.Name) and ((isinstance(st.value, ast.List) and not st.value.elts) or
+                                                (isinstance(st.value, ast.Call) and isinstance(st.value.func, ast.Name) and st.value.func.id == "list"
+                                                 and not st.value.args and not st.value.keywords and "list" not in self.env)):
+                    if loops or conditional:
+                        raise _NoRec("list started inside a loop or branch `%s`" % norm(st)[:60])
+                    self.env[t.id] = _ListAcc()
+                elif isinstance(t, ast.Name):
                     self.env[t.id] = self.ev(st.value)
                 elif isinstance(t, ast.Subscript) and isinstance(t.value, ast.Name) and isinstance(self.env.get(t.value.id), _Arr):
                     base = self.env[t.value.id]
@@ -646,6 +753,10 @@ class _MatEval:
                 k = self.fresh(bool(lo == 0 and off == 0), norm(it))
                 self.env[st.target.id] = k
                 self.run(st.body, loops + [k], conditional)
+                for name, acc in list(self.env.items()):
+                    if isinstance(acc, _ListAcc) and acc.pending is not None and acc.pending[0] == k:
+                        # the loop ran over the full extent and appended once per pass: element i is the term appended in pass i
+                        self.env[name] = _Arr(1, (lambda i, _v=acc.pending[1], _k=k: _v.xreplace({_k: i})), "expr")
             elif isinstance(st, ast.If):
                 only_raise = all(isinstance(x, (ast.Raise, ast.Expr)) for x in st.body) and any(isinstance(x, ast.Raise) for x in st.body) and not st.orelse
                 if only_raise:
@@ -1142,8 +1253,13 @@ class _PState:
 
     def copy(self):
         s = _PState()
+        memo = {}       # two names bound to the same mutable object stay bound to one object in the copy
         for k, v in self.vars.items():
-            s.vars[k] = list(v) if isinstance(v, list) else (dict(v) if isinstance(v, dict) else (v.copy() if isinstance(v, _Kw) else v))
+            if isinstance(v, (list, dict, _Kw)):
+                if id(v) not in memo:
+                    memo[id(v)] = list(v) if isinstance(v, list) else (dict(v) if isinstance(v, dict) else v.copy())
+                v = memo[id(v)]
+            s.vars[k] = v
         s.cons = list(self.cons)
         s.bodies = dict(self.bodies)
         return s
@@ -1194,6 +1310,44 @@ class _PX:
                 yield status, s2
 
     def stmt(self, a, st, fi):
+        if not self.entered and isinstance(a, (ast.Expr, ast.Assign, ast.AugAssign, ast.Return)) and any(isinstance(x, ast.Call) for x in ast.walk(a)):
+            # a helper entered from this statement may branch on a test the state does not decide (_ForkNeeded): the statement is tried on
+            # a copy of the state; if that happens the path forks on the test HERE and the statement is run again under each outcome,
+            # where the test is decided by the path constraints
+            trial = st.copy()
+            try:
+                res = list(self.stmt0(a, trial, fi))
+            except _ForkNeeded as fk:
+                if len(st.cons) > 200:
+                    raise _NoRec("too many undecided tests in helpers")
+                for b, s2 in self.fork(fk.t, st):
+                    for x in self.stmt(a, s2, fi):
+                        yield x
+                return
+            for x in res:
+                yield x
+            return
+        for x in self.stmt0(a, st, fi):
+            yield x
+
+    def decide(self, test, st, fi):
+        """(outcome, state) for every way the test can go; a helper that branches while the test is evaluated forks the path first"""
+        # (inside a helper nothing is copied: its parameters may be the caller's own mutable objects, and an undecided test there is
+        # passed up to the statement of the routine that entered it)
+        trial = st.copy() if (not self.entered and any(isinstance(x, ast.Call) for x in ast.walk(test))) else st
+        try:
+            t = self.truth(test, trial, fi)
+        except _ForkNeeded as fk:
+            if len(st.cons) > 200:
+                raise _NoRec("too many undecided tests in helpers")
+            for b, s2 in self.fork(fk.t, st):
+                for x in self.decide(test, s2, fi):
+                    yield x
+            return
+        for x in self.fork(t, trial):
+            yield x
+
+    def stmt0(self, a, st, fi):
         if isinstance(a, (ast.Pass, ast.Global, ast.Nonlocal, ast.Assert, ast.Delete)):
             yield ("next",), st
         elif isinstance(a, (ast.Import, ast.ImportFrom)):
@@ -1222,7 +1376,7 @@ class _PX:
         elif isinstance(a, ast.Continue):
             yield ("continue",), st
         elif isinstance(a, ast.If):
-            for b, s2 in self.fork(self.truth(a.test, st, fi), st):
+            for b, s2 in self.decide(a.test, st, fi):
                 for x in self.block(a.body if b else a.orelse, s2, fi):
                     yield x
         elif isinstance(a, ast.While):
@@ -1244,10 +1398,10 @@ class _PX:
     def loop(self, a, st, fi, rng, j):
         """one visit of the loop head; rng = (start, trip count) for a counted `for`, None for `while`"""
         if rng is not None:
-            t = self.rel(ast.Lt, sp.Integer(j), rng[1])
+            outcomes = self.fork(self.rel(ast.Lt, sp.Integer(j), rng[1]), st)
         else:
-            t = self.truth(a.test, st, fi)
-        for b, s2 in self.fork(t, st):
+            outcomes = self.decide(a.test, st, fi)
+        for b, s2 in outcomes:
             if not b:
                 for x in self.block(a.orelse, s2, fi):
                     yield x
@@ -1275,6 +1429,8 @@ class _PX:
         if known is not None:
             yield known, st
             return
+        if self.entered:
+            raise _ForkNeeded(t)        # inside a helper entered from an expression: the calling statement forks (see stmt)
         for b in (True, False):
             s2 = st.copy()
             s2.cons.append((t, b))
@@ -1426,6 +1582,10 @@ class _PX:
             full = self.repo.resolve_name(fi.module, e.id)
             if full == "numpy.newaxis":
                 return None
+            if not self.repo.has(full):
+                tab = self.module_table(fi, e.id)
+                if tab is not None:
+                    return tab
             return _Opq("mod:" + full)
         if isinstance(e, ast.Attribute):
             d = dotted_name(e)
@@ -1528,6 +1688,42 @@ class _PX:
             return _Opq("str")
         raise _NoRec("expression `%s`" % norm(e)[:60])
 
+    def module_table(self, fi, name):
+        """a module-level dispatch table: `NAME = {constant: function, ...}` bound exactly once at module level, never rebound (no
+        other assignment, no `global NAME`) and never changed in place anywhere in the module (no NAME[...] = / del NAME[...] /
+        NAME.update(...) ...), read as a fresh dict from constant keys to the functions named (a call through it is a call of the entry)"""
+        tree = fi.module.tree
+        binds = [a for a in tree.body if isinstance(a, ast.Assign) and any(isinstance(t, ast.Name) and t.id == name for t in a.targets)]
+        if len(binds) != 1 or len(binds[0].targets) != 1 or not isinstance(binds[0].value, ast.Dict):
+            return None
+        d = binds[0].value
+        if any(k is None or not isinstance(k, ast.Constant) or isinstance(k.value, (bool, float)) for k in d.keys) or not all(isinstance(v, ast.Name) for v in d.values):
+            return None
+        for x in ast.walk(tree):
+            if isinstance(x, (ast.Global, ast.Nonlocal)) and name in x.names:
+                return None
+            if isinstance(x, ast.Name) and x.id == name and not isinstance(x.ctx, ast.Load) and x is not binds[0].targets[0]:
+                return None
+            if isinstance(x, (ast.Subscript, ast.Attribute)) and isinstance(x.value, ast.Name) and x.value.id == name:
+                if not isinstance(x.ctx, ast.Load):
+                    return None
+                if isinstance(x, ast.Attribute) and x.attr not in ("get", "keys", "values", "items", "copy"):
+                    return None
+            if isinstance(x, (ast.AugAssign, ast.AnnAssign, ast.NamedExpr)) and isinstance(x.target, ast.Name) and x.target.id == name:
+                return None
+            if isinstance(x, (ast.arg,)) and x.arg == name:
+                return None             # (a parameter of that name hides the table somewhere: not followed)
+        out = {}
+        for k, v in zip(d.keys, d.values):
+            full = self.repo.resolve_name(fi.module, v.id)
+            if not self.repo.has(full):
+                return None
+            key = sp.Integer(k.value) if isinstance(k.value, int) else k.value
+            if key in out:
+                return None
+            out[key] = _Opq("mod:" + full)
+        return out
+
     def subscript(self, b, sl, st, fi, e):
         if isinstance(sl, ast.Slice):
             lo, hi, stp = [(self.ev(x, st, fi) if x is not None else None) for x in (sl.lower, sl.upper, sl.step)]
@@ -1536,6 +1732,8 @@ class _PX:
             if isinstance(b, sp.Basic):
                 if lo is None and hi is None and stp is None:
                     return b
+                if _head(b) == "RUNDIFF" and lo == 1 and hi is None and stp is None:
+                    return b.args[0] - CUMSUM(b.args[1])
                 return SLICE(b, _t(lo), _t(hi), _t(stp))
             raise _NoRec("slice `%s`" % norm(e))
         if isinstance(sl, ast.Tuple):
@@ -1652,7 +1850,12 @@ class _PX:
                 if isinstance(recv, _Opq) and recv.text.startswith("mod:"):
                     full, recv = recv.text[4:] + "." + nm, None
         else:
-            raise _NoRec("call `%s`" % norm(c)[:60])
+            # the callee is the value of an expression (an entry of a dispatch table): followed when it evaluates to a function of the package
+            fv = self.ev(f, st, fi) if isinstance(f, (ast.Subscript, ast.IfExp)) else None
+            if isinstance(fv, _Opq) and fv.text.startswith("mod:") and self.repo.has(fv.text[4:]):
+                full = fv.text[4:]
+            else:
+                raise _NoRec("call `%s`" % norm(c)[:60])
         args = [self.ev(a, st, fi) for a in c.args if not isinstance(a, ast.Starred)]
         if any(isinstance(a, ast.Starred) for a in c.args):
             raise _NoRec("call with *args")
@@ -1748,6 +1951,16 @@ class _PX:
             return _csize(a0)
         if nm == "cumsum" and len(args) == 1 and isinstance(a0, sp.Basic) and (not kws or (set(kws) == {"axis"} and kws["axis"] in (0, None, sp.Integer(0)))):
             return CUMSUM(a0)
+        if nm == "accumulate" and full in ("numpy.add.accumulate", "numpy.subtract.accumulate") and len(args) == 1 and isinstance(a0, sp.Basic) \
+                and (not kws or (set(kws) == {"axis"} and kws["axis"] in (0, sp.Integer(0)))):
+            if full == "numpy.add.accumulate":
+                return CUMSUM(a0)           # r[0] = a[0], r[i] = r[i-1] + a[i]
+            # subtract.accumulate over [s, X0, X1, ...] (a scalar put in front of a 1-d array) is the running difference
+            # [s, s - X0, s - X0 - X1, ...]; without its first entry this is s - cumsum(X) (see subscript)
+            if _head(a0) == "C_numpy.concatenate" and len(a0.args) == 1 and _head(a0.args[0]) == "TUPLE" and len(a0.args[0].args) == 2:
+                first, rest = a0.args[0].args
+                if _head(first) == "TUPLE" and len(first.args) == 1 and _head(rest) != "TUPLE" and _head(first.args[0]) != "TUPLE":
+                    return _F("RUNDIFF")(first.args[0], rest)
         if nm == "searchsorted" and len(args) == 2 and all(isinstance(x, sp.Basic) for x in args) and set(kws) <= {"side"} and kws.get("side", "left") in ("left", "right"):
             # position of the first element that is >= v (side='left', the default) / > v (side='right')
             return FIRSTPOS(REL[ast.GtE if kws.get("side", "left") == "left" else ast.Gt](args[0], args[1]))
@@ -2049,12 +2262,78 @@ def clipping(chk, repo):
         chk.ob("R18.clip", key, ok, where, "%s (%d paths)%s" % (text, n, (": " + why) if why else ""))
 
 
+_REDUCERS = {"MEAN", "STD", "VAR", "MEDIAN", "SUM", "MIN", "MAX", "COUNT", "SIZE", "ITEM", "FIRSTPOS"}
+
+
+def _bases_of(ALL):
+    """the arrays whose subsets are followed: the data (ALL is ARANGE(SIZE(data))) and the weights"""
+    return (ALL.args[0].args[0], sp.Symbol("W"))
+
+
+def _mask_domain(m, ALL):
+    """the index set the element-wise condition m is evaluated over: the set of every data / weights subset that occurs in it outside
+    a reduction (they must all be the same set); None when there is none or they differ"""
+    found = set()
+
+    def walk(t):
+        if not isinstance(t, sp.Basic):
+            return
+        for b in _bases_of(ALL):
+            j = _set_of(t, b, ALL)
+            if j is not None:
+                found.add(j)
+                return
+        h = _head(t)
+        if h in _REDUCERS or h.startswith("C_"):
+            return
+        for a in t.args:
+            walk(a)
+    walk(m)
+    return found.pop() if len(found) == 1 else None
+
+
+def _rooted(j, ALL):
+    """is the index-set term a chain ALL -> ALL[sel0] -> ALL[sel0][sel1] ... (positions in the full array)"""
+    while _head(j) == "IDX":
+        j = j.args[0]
+    return j == ALL
+
+
+def _canon_set(j, ALL):
+    """one spelling for every index set, keeping what it denotes (positions in the full array): the chain
+    ALL -> IDX(ALL, WHERE(c0)) -> IDX(IDX(ALL, WHERE(c0)), WHERE(c1)) ...
+      * a boolean selection and the positions where it holds select the same elements: J[c] is J[WHERE(c)]
+      * positions in the full array looked up in arange(n) are themselves: ALL[K] is K for a chain K
+      * the positions where a condition over the FULL array holds are ALL[WHERE(c)] (a condition over a subset gives positions within
+        that subset: left as it is, and judged where it is used)"""
+    if not isinstance(j, sp.Basic) or j == ALL:
+        return j
+    h = _head(j)
+    if h == "WHERE" or _is_mask(j):
+        c = j.args[0] if h == "WHERE" else j
+        return IDX(ALL, WHERE(c)) if _mask_domain(c, ALL) == ALL else j
+    if h == "IDX":
+        inner, sel = _canon_set(j.args[0], ALL), j.args[1]
+        if _head(sel) == "WHERE" or _is_mask(sel):
+            return IDX(inner, WHERE(sel.args[0] if _head(sel) == "WHERE" else sel))
+        if inner == ALL:
+            k = _canon_set(sel, ALL)
+            if _rooted(k, ALL):
+                return k
+        return IDX(inner, sel)
+    return j
+
+
 def _set_of(x, base, ALL):
-    """the index set J such that x is base[J] (ALL when x is base itself), else None"""
+    """the index set J (canonical chain form) such that x is base[J] (ALL when x is base itself), else None.  A subset of a subset
+    composes: (base[J])[K] is base[J[K]], so data that is narrowed in step with the index list and data that is re-indexed from the
+    full array by the accumulated index list give the same set"""
     if x == base:
         return ALL
-    if _head(x) == "IDX" and x.args[0] == base:
-        return x.args[1]
+    if _head(x) == "IDX":
+        inner = _set_of(x.args[0], base, ALL)
+        if inner is not None:
+            return _canon_set(IDX(inner, x.args[1]), ALL)
     return None
 
 
@@ -2145,6 +2424,7 @@ def _clip_path(agg, rv, st, w, A, W, NITER, NSIG, GE_, GI_, ALL, wmom_q):
     agg.put("sigma_clip::result-order", names == want, lambda: "the results are %s" % names)
     if I is None:
         I = _set_of(vroles[0][1], A, ALL)       # no set is reported on this path: the set the mean belongs to
+    I = _canon_set(I, ALL)
     if I is None or not chain_form(I):
         agg.put("sigma_clip::lock-step::return", None, lambda: "the surviving set is %s and the mean is taken over %s" % (I, vroles[0][1]))
         return
@@ -2173,7 +2453,9 @@ def _clip_path(agg, rv, st, w, A, W, NITER, NSIG, GE_, GI_, ALL, wmom_q):
             gens.append((cur.args[0], c))
             cur = cur.args[0]
         elif _head(cur) == "WHERE" or _is_mask(cur):
-            ok_chain, why = False, "positions selected within the current subset (%s) are used as positions in the full array" % str(cur)[:120]
+            # (positions where a condition over the full array holds were given the chain form ALL[WHERE(c)] above)
+            over = _mask_domain(cur.args[0] if _head(cur) == "WHERE" else cur, ALL)
+            ok_chain, why = (None if over is None else False), "positions selected within the current subset (%s) are used as positions in the full array" % str(cur)[:120]
             break
         else:
             ok_chain, why = None, "surviving set %s" % str(cur)[:200]
